@@ -2,7 +2,7 @@ SPECIFICATION ISpec
 CONSTANTS IKeys = {1, 2, 3, 4, 5, 6, 7, 8, 9}
  Multi = FALSE
  MaxN = 9
- OtherMax = 2
+ OtherMax = 1
  OpSet = {"insert", "insertHint", "removeKey", "removeAt", "removeFront", "removeBack", "clear", "copy", "assign", "bulk", "find", "contains", "front", "back"}
  OrigFind = FALSE
  Keys = {}
